@@ -36,6 +36,10 @@ pub struct Case {
     pub quotes: Vec<QSpec>,
     /// extra steps: writes / removals of the linked map key on generated replicas
     pub map_ops: Vec<(u16, u8, bool)>,
+    /// extra steps: edits of the XML text (at, replica, position, what: 0..=2 insert 1..=3 unique
+    /// characters, 3..=4 remove 1..=2 characters)
+    #[serde(default)]
+    pub xml_ops: Vec<(u16, u8, u16, u8)>,
 }
 
 pub struct Quotes;
@@ -127,11 +131,34 @@ fn range_of(flat: &[FlatU], start: &Edge, end: &Edge) -> Option<(usize, usize)> 
     Some((from, to.max(from)))
 }
 
+/// the XML text every case starts with (first child of the root fragment)
+fn xml_text(r: &Replica) -> Option<yrs::XmlTextRef> {
+    use yrs::XmlFragment;
+    let txn = r.doc.transact();
+    match r.roots.xml.get(&txn, 0) {
+        Some(yrs::XmlOut::Text(t)) => Some(t),
+        _ => None,
+    }
+}
+
+fn xml_text_in<T: ReadTxn>(r: &Replica, txn: &T) -> Option<yrs::XmlTextRef> {
+    use yrs::XmlFragment;
+    match r.roots.xml.get(txn, 0) {
+        Some(yrs::XmlOut::Text(t)) => Some(t),
+        _ => None,
+    }
+}
+
+/// kind 0 = root text, 1 = root array, 3 = the XML text
 fn source_branch(r: &Replica, kind: u8) -> BranchPtr {
-    if kind == 0 {
-        BranchPtr::from(AsRef::<Branch>::as_ref(&r.roots.text))
-    } else {
-        BranchPtr::from(AsRef::<Branch>::as_ref(&r.roots.arr))
+    match kind {
+        0 => BranchPtr::from(AsRef::<Branch>::as_ref(&r.roots.text)),
+        3 => match xml_text(r) {
+            Some(t) => BranchPtr::from(AsRef::<Branch>::as_ref(&t)),
+            // (every replica receives the XML text before anything else happens)
+            None => BranchPtr::from(AsRef::<Branch>::as_ref(&r.roots.xml)),
+        },
+        _ => BranchPtr::from(AsRef::<Branch>::as_ref(&r.roots.arr)),
     }
 }
 
@@ -154,7 +181,7 @@ fn check_quotes(w: &World, r: usize, live: &[Live], when: &str, st: &mut CaseSta
             continue;
         };
         match l.kind {
-            0 | 1 => {
+            0 | 1 | 3 => {
                 let flat = source_flat(rep, l.kind);
                 let Some((f, t)) = range_of(&flat, &l.start, &l.end) else {
                     st.hit("boundary_not_in_item_list");
@@ -163,6 +190,10 @@ fn check_quotes(w: &World, r: usize, live: &[Live], when: &str, st: &mut CaseSta
                 let want: Vec<String> = flat[f..t].iter().filter(|u| u.visible).map(|u| u.key.clone()).collect();
                 let got: Vec<String> = if l.kind == 0 {
                     let t: WeakRef<TextRef> = WeakRef::from(weak.clone());
+                    t.get_string(&txn).chars().map(|c| format!("t:{}", c)).collect()
+                } else if l.kind == 3 {
+                    // (no formatting in these histories: the XML string of the range is its plain text)
+                    let t: WeakRef<yrs::XmlTextRef> = WeakRef::from(weak.clone());
                     t.get_string(&txn).chars().map(|c| format!("t:{}", c)).collect()
                 } else {
                     let a: WeakRef<ArrayRef> = WeakRef::from(weak.clone());
@@ -180,7 +211,7 @@ fn check_quotes(w: &World, r: usize, live: &[Live], when: &str, st: &mut CaseSta
                     };
                     let class = if boundary_deleted(&l.start) || boundary_deleted(&l.end) { "deleted-boundary" } else { "live-boundaries" };
                     fail!(
-                        format!("c20/quotation-content/{}/{}", if l.kind == 0 { "text" } else { "array" }, class),
+                        format!("c20/quotation-content/{}/{}", ["text", "array", "link", "xml-text"][l.kind as usize % 4], class),
                         "{}: on replica {} quotation {} ({:?} .. {:?}) dereferences to {:?}, but the elements currently visible between its boundaries are {:?}",
                         when,
                         r,
@@ -444,10 +475,15 @@ impl Prop for Quotes {
         shape.ops_per_txn = 2;
         let mut p = Profile::sequences_unique();
         p.xml = 0;
-        let q = (any::<u16>(), any::<u8>(), 0u8..3, any::<u16>(), any::<u16>(), 0u8..3, 0u8..3, prop::option::weighted(0.2, any::<u16>()))
+        let q = (any::<u16>(), any::<u8>(), 0u8..4, any::<u16>(), any::<u16>(), 0u8..3, 0u8..3, prop::option::weighted(0.2, any::<u16>()))
             .prop_map(|(at, r, kind, a, b, sk, ek, remove_at)| QSpec { at, r, kind, a, b, sk, ek, remove_at });
-        (history_strategy(p, shape, false), prop::collection::vec(q, 1..4), prop::collection::vec((any::<u16>(), any::<u8>(), any::<bool>()), 0..5))
-            .prop_map(|(history, quotes, map_ops)| Case { history, quotes, map_ops })
+        (
+            history_strategy(p, shape, false),
+            prop::collection::vec(q, 1..4),
+            prop::collection::vec((any::<u16>(), any::<u8>(), any::<bool>()), 0..5),
+            prop::collection::vec((any::<u16>(), any::<u8>(), any::<u16>(), 0u8..5), 0..8),
+        )
+            .prop_map(|(history, quotes, map_ops, xml_ops)| Case { history, quotes, map_ops, xml_ops })
             .boxed()
     }
 
@@ -457,6 +493,24 @@ impl Prop for Quotes {
         let nsteps = case.history.steps.len();
         let mut live: Vec<Live> = Vec::new();
         let mut deferred: Option<Fail> = None;
+        // an XML text known to everybody (third kind of quotable source)
+        {
+            use yrs::{Text, XmlFragment};
+            let init: String = (0..4).map(|_| w.alloc.ch(0)).collect();
+            {
+                let rep = &w.reps[0];
+                let mut txn = rep.doc.transact_mut();
+                let t = rep.roots.xml.insert(&mut txn, 0, yrs::XmlTextPrelim::new(""));
+                t.insert(&mut txn, 0, &init);
+            }
+            if let Some(u) = w.register_local(0, vec![]) {
+                for r in 1..n {
+                    if let Err(e) = w.deliver(r, u, false) {
+                        fail!("c20/transport/apply-failed", "setup: {}", e);
+                    }
+                }
+            }
+        }
         for (i, s) in case.history.steps.iter().enumerate() {
             let when = format!("after step {} {:?}", i, s);
             let before = snapshot(&w, &live);
@@ -508,6 +562,43 @@ impl Prop for Quotes {
                     check_quotes(&w, r, &live, &format!("{} + write to the linked entry", when), st)?;
                 }
             }
+            // edits of the XML text
+            for (at, r, pos, what) in case.xml_ops.iter() {
+                if pick(*at, nsteps) != i {
+                    continue;
+                }
+                use yrs::Text;
+                let r = *r as usize % n;
+                let Some(t) = xml_text(&w.reps[r]) else { continue };
+                let before = snapshot(&w, &live);
+                {
+                    let rep = &w.reps[r];
+                    let kind = rep.cfg.kind();
+                    let mut txn = rep.doc.transact_mut();
+                    let s = t.get_string(&txn);
+                    let chars: Vec<char> = s.chars().collect();
+                    let width = |cs: &[char]| -> u32 {
+                        cs.iter()
+                            .map(|c| match kind {
+                                OffsetKind::Bytes => c.len_utf8() as u32,
+                                OffsetKind::Utf16 => c.len_utf16() as u32,
+                            })
+                            .sum()
+                    };
+                    if *what < 3 {
+                        let k = pick(*pos, chars.len() + 1);
+                        let ins: String = (0..=*what).map(|j| w.alloc.ch(*what + j)).collect();
+                        t.insert(&mut txn, width(&chars[..k]), &ins);
+                    } else if !chars.is_empty() {
+                        let k = pick(*pos, chars.len());
+                        let len = ((*what - 2) as usize).min(chars.len() - k);
+                        t.remove_range(&mut txn, width(&chars[..k]), width(&chars[k..k + len]));
+                    }
+                }
+                w.register_local(r, vec![]);
+                observe(&w, &mut live, r, &before, &format!("{} + edit of the XML text", when), st, &mut deferred)?;
+                check_quotes(&w, r, &live, &format!("{} + edit of the XML text", when), st)?;
+            }
             // new quotations
             for (qi, q) in case.quotes.iter().enumerate() {
                 if pick(q.at, nsteps) != i {
@@ -515,7 +606,7 @@ impl Prop for Quotes {
                 }
                 let r = q.r as usize % n;
                 let key = format!("q{}", qi);
-                let kind = q.kind % 3;
+                let kind = q.kind % 4;
                 let made: Option<(Edge, Edge)> = {
                     let rep = &w.reps[r];
                     let okind = rep.cfg.kind();
@@ -530,7 +621,16 @@ impl Prop for Quotes {
                         }
                     } else {
                         // element boundaries of the visible sequence
-                        let items = branch_items(&source_branch(rep, kind));
+                        // (a write transaction is open on this replica: the XML text is looked up through it)
+                        let src = if kind == 3 {
+                            match xml_text_in(rep, &txn) {
+                                Some(t) => BranchPtr::from(AsRef::<Branch>::as_ref(&t)),
+                                None => BranchPtr::from(AsRef::<Branch>::as_ref(&rep.roots.xml)),
+                            }
+                        } else {
+                            source_branch(rep, kind)
+                        };
+                        let items = branch_items(&src);
                         // (offset, first id, last id); `tail` is what an index that sticks to the right side
                         // of an element has to add: with UTF-16 offsets it names the last code unit of the
                         // element, byte offsets always name the first byte of a character
@@ -599,6 +699,13 @@ impl Prop for Quotes {
                                     rep.roots.text.quote(&txn, (start_b, end_b)).map(|p| {
                                         rep.roots.map.insert(&mut txn, key.clone(), p);
                                     })
+                                } else if kind == 3 {
+                                    match xml_text_in(rep, &txn) {
+                                        Some(t) => t.quote(&txn, (start_b, end_b)).map(|p| {
+                                            rep.roots.map.insert(&mut txn, key.clone(), p);
+                                        }),
+                                        None => Ok(()),
+                                    }
                                 } else {
                                     rep.roots.arr.quote(&txn, (start_b, end_b)).map(|p| {
                                         rep.roots.map.insert(&mut txn, key.clone(), p);
@@ -629,7 +736,7 @@ impl Prop for Quotes {
                             _ => None,
                         }
                     };
-                    let carriers: BTreeSet<ID> = if kind < 2 {
+                    let carriers: BTreeSet<ID> = if kind != 2 {
                         let flat = source_flat(&w.reps[r], kind);
                         match range_of(&flat, &start, &end) {
                             Some((f, t)) => flat[f..t].iter().filter(|u| u.visible).map(|u| u.first).collect(),
@@ -644,7 +751,7 @@ impl Prop for Quotes {
                         reg
                     };
                     live.push(Live { key, kind, start, end, owner: r, fired, _sub: sub, removed: false, carriers, link_id: link_item_id(&w.reps[r], &format!("q{}", qi)) });
-                    st.hit(["text_quotations", "array_quotations", "map_links"][kind as usize]);
+                    st.hit(["text_quotations", "array_quotations", "map_links", "xml_text_quotations"][kind as usize]);
                     check_quotes(&w, r, &live, &format!("{} right after quoting", when), st)?;
                     // integrating the quotation registers it on everything in its range
                     {
@@ -729,6 +836,10 @@ fn quote_view_key(rep: &Replica, key: &str, kind: u8) -> Option<String> {
         1 => {
             let a: WeakRef<ArrayRef> = WeakRef::from(weak);
             Some(a.unquote(&txn).map(|o| format!("{}", o)).collect::<Vec<_>>().join(","))
+        }
+        3 => {
+            let t: WeakRef<yrs::XmlTextRef> = WeakRef::from(weak);
+            Some(t.get_string(&txn))
         }
         _ => {
             let m: WeakRef<MapRef> = WeakRef::from(weak);
